@@ -1,6 +1,98 @@
-/-! `pmodel store`: line-protocol driver (stub — replaced by the owner of this model). -/
+import PhreeqcVerif.Model.Util
+import PhreeqcVerif.Model.Store
+/-! `pmodel store`: predicts, for a history of RunString calls given as structured blocks, which (kind, number)
+entries `DUMP -all` shows after each call and which content token each holds (plus the provenance of new tokens). -/
 namespace Driver.Store
+open PhreeqcVerif PhreeqcVerif.Util PhreeqcVerif.Store
 
-def run : IO Unit := IO.eprintln "pmodel store: not implemented"
+def parseKind : String → Option Kind
+  | "solution" => some .solution | "pp" => some .pp | "exchange" => some .exchange | "surface" => some .surface
+  | "ss" => some .ss | "gas" => some .gas | "kinetics" => some .kinetics | "mix" => some .mix
+  | "reaction" => some .reaction | "temperature" => some .temperature | "pressure" => some .pressure
+  | _ => none
+
+def parseTok (t : String) : Option NumTok :=
+  match t.splitOn "~" with
+  | [a] => a.toInt?.map NumTok.one
+  | [a, b] => match a.toInt?, b.toInt? with
+    | some x, some y => some (NumTok.two x y)
+    | _, _ => none
+  | _ => none
+
+def parseToks (s : String) : Option (List NumTok) :=
+  if s.isEmpty then some [] else (s.splitOn ",").mapM parseTok
+
+def parseDelLine (w : String) : Option DelLine :=
+  if w == "all" then some .all else
+  match w.splitOn ":" with
+  | [k, toks] =>
+    if k == "cell" then (parseToks toks).map DelLine.cell
+    else match parseKind k, parseToks toks with
+      | some kk, some ts => some (.item kk ts)
+      | _, _ => none
+  | _ => none
+
+def parseBlock (w : List String) : Option Block :=
+  match w with
+  | ["def", k, n, m, id, eq] => do
+    let kk ← parseKind k; let n ← n.toInt?; let m ← m.toInt?; let id ← id.toNat?
+    let e ← (if eq == "-" then some none else eq.toInt?.map some)
+    pure (.define kk n m id e)
+  | ["raw", k, n, m, id, nd] => do
+    let kk ← parseKind k; let n ← n.toInt?; let m ← m.toInt?; let id ← id.toNat?
+    pure (.raw kk n m id (nd != "0"))
+  | ["mod", k, n, m, id] => do
+    let kk ← parseKind k; let n ← n.toInt?; let m ← m.toInt?; let id ← id.toNat?
+    pure (.modify kk n m id)
+  | ["use", k, n] => do
+    let kk ← parseKind k
+    if n == "none" then pure (.use kk none) else do let n ← n.toInt?; pure (.use kk (some n))
+  | ["save", k, n, m] => do
+    let kk ← parseKind k; let n ← n.toInt?; let m ← m.toInt?
+    pure (.save kk n m)
+  | ["copy", k, src, a, b] => do
+    let src ← src.toInt?; let a ← a.toInt?; let b ← b.toInt?
+    if k == "cell" then pure (.copy none src a b) else do let kk ← parseKind k; pure (.copy (some kk) src a b)
+  | "del" :: ls => do let ls ← ls.mapM parseDelLine; pure (.delete ls)
+  | "cells" :: ts => do let ts ← ts.mapM parseTok; pure (.runCells ts)
+  | "emix" :: k :: n :: m :: comps => do
+    let kk ← parseKind k; let n ← n.toInt?; let m ← m.toInt?; let cs ← comps.mapM String.toInt?
+    pure (.entityMix kk n m cs)
+  | _ => none
+
+def run : IO Unit := do
+  let lines ← readLines (← IO.getStdin)
+  let out ← IO.getStdout
+  let mut s : St := St.init true
+  let mut sims : Array (List Block) := #[]
+  let mut cur : Array Block := #[]
+  let mut printed : Nat := 0
+  for l in lines do
+    let w := words l
+    match w with
+    | [] => pure ()
+    | ["cfg", m] => s := { s with unsignedLoop := (m == "sizet") }
+    | ["new"] => s := St.init s.unsignedLoop; printed := 0
+    | ["run"] => sims := #[]
+    | ["sim"] => cur := #[]
+    | ["endsim"] => sims := sims.push cur.toList
+    | ["endrun"] =>
+      s := runCall s sims.toList
+      match s.stopped with
+      | some msg => out.putStrLn s!"R stop {msg}"
+      | none => out.putStrLn "R ok"
+      -- the observing call: an empty simulation with DUMP -all
+      let sd := simToDump { s with stopped := none, simNo := 0 } []
+      for (k, n, tok) in visible sd.maps do
+        out.putStrLn s!"E {k.name} {n} {tok}"
+      for (tok, p) in sd.prov.reverse.drop printed do
+        out.putStrLn s!"T {tok} {p}"
+      printed := sd.prov.length
+      s := deleteEntities sd
+      out.putStrLn "Z"
+    | _ =>
+      match parseBlock w with
+      | some b => cur := cur.push b
+      | none => out.putStrLn s!"bad-op {l}"
 
 end Driver.Store
